@@ -31,6 +31,7 @@ structure MsgInfo where
   handed : List Nat := []
   hn : Nat := 0               -- fw.HashNameToFwThread(name)            (hash facts from the tx line)
   hp : List Nat := [0]        -- threads of fw.HashNameToAllPrefixFwThreads(name), ascending
+  pkt : OutPkt := { wire := [] }  -- the packet as handed to sendPacket (for `txb`)
 
 def fnvText (h : UInt64) (s : String) : UInt64 :=
   s.foldl (fun h c => (h ^^^ c.toNat.toUInt64) * 0x100000001b3) h
@@ -50,6 +51,8 @@ structure DSt where
   msgs : List MsgInfo := []
   judgeRx : Bool := true
   nThreads : Nat := 1
+  cfgB : TxCfg := { mtu := 0 }   -- second sending face (configuration of `new`, never reconfigured)
+  txB : TxSt := {}
 
 def optNatText (s : String) : Option (Option Nat) :=
   if s == "-" then some none else s.toNat?.map some
@@ -104,6 +107,70 @@ def parseDelivery (s : String) : Option (Delivery × List Nat) :=
   | _ => none
 
 def bool01 (s : String) : Bool := s == "1"
+
+/-- one packet through a sending link service: face A (the live, reconfigurable one) or face B (a
+    second, never congested face the SAME packet object is sent on as well) -/
+def txCommon (d : DSt) (crash : List SpecFail) (got : String) (id : String) (p : OutPkt)
+    (hn : Nat) (hp : List Nat) (faceB : Bool) : StepResult DSt :=
+    let cfg := if faceB then d.cfgB else d.cfg
+    let txst := if faceB then d.txB else d.tx
+    let setTx (d : DSt) (t : TxSt) : DSt := if faceB then { d with txB := t } else { d with tx := t }
+    let wire := p.wire
+    let tok := p.token
+    let mark := p.mark
+    let inface := p.inFace
+    -- ---------- model
+    let r := sendPacketF cfg txst p
+    let mframes := r.2.1.map encFrame
+    let expected := s!"n={mframes.length}" ++ String.join (mframes.map fun f => " " ++ hexOfBytes f)
+    let cov := [match r.2.2 with
+                | .single => "tx-single" | .dropNoFrag => "tx-drop-nofrag"
+                | .dropTinyMtu => "tx-drop-tiny-mtu" | .fragmented => "tx-fragmented"] ++
+               (if r.1.nextSeq < txst.nextSeq then ["tx-seq-wrap"] else []) ++
+               (if (congestionStep cfg txst p).1 ≠ mark then ["tx-own-congestion-mark"] else []) ++
+               (if tok ≠ [] then ["tx-token"] else []) ++ (if mark.isSome then ["tx-mark"] else []) ++
+               (if cfg.ifiEnabled ∧ inface.isSome then ["tx-inface"] else [])
+    -- ---------- specification on the implementation's frames
+    let toks := got.splitOn " "
+    let iframes : Option (List Bytes) :=
+      match toks with
+      | n :: hs => if n.startsWith "n=" then hs.mapM bytesOfHex else none
+      | [] => none
+    match iframes with
+    | none => { st := { (setTx d r.1) with judgeRx := false }, expected := some expected, spec := crash, cov := cov }
+    | some iframes =>
+      let m0 : Sent := { wire := wire, token := tok, mark := mark,
+                         inFace := if cfg.ifiEnabled then inface else none }
+      let inScope := m0.admissible && cfg.mtu ≥ specMinMtu
+      -- the mark the frames have to carry: the packet's, unless the link signals congestion itself
+      let ownMarkAllowed := cfg.congMarking && p.congested
+      let firstMark : Option Nat := match decodeAll iframes with
+        | some (f :: _) => f.mark | _ => mark
+      -- nothing was sent: when the link may add its own mark, judge the drop against the smallest
+      -- frame it could have built with a mark of its own (any 1-byte mark has the same size)
+      let mOwn : Sent := { m0 with mark := some 1 }
+      let m : Sent :=
+        if iframes.isEmpty && ownMarkAllowed && mark.isNone && !mOwn.fitsWhole cfg.mtu then mOwn
+        else if ownMarkAllowed && (mark.isNone || firstMark.isSome) then { m0 with mark := firstMark } else m0
+      let fails : List SpecFail :=
+        if !inScope then [] else
+        (if framesFit cfg.mtu iframes then [] else
+          [⟨"frame-le-mtu", "frame-gt-mtu", s!"mtu={cfg.mtu} packet={wire.length}B frame sizes={iframes.map (·.length)}"⟩]) ++
+        (if singleOk m cfg.mtu iframes then [] else
+          [⟨"fits-single-frame", "not-single", s!"mtu={cfg.mtu} packet={wire.length}B fits one frame of {(encFrame m.whole).length}B but {iframes.length} frames were sent"⟩]) ++
+        (if noFragOk m cfg.mtu cfg.fragEnabled iframes then [] else
+          [⟨"nofrag-oversize-dropped", "sent-oversize", s!"fragmentation disabled, mtu={cfg.mtu}, packet={wire.length}B, yet {iframes.length} frame(s) sent"⟩]) ++
+        (if iframes.isEmpty then
+           (if cfg.fragEnabled || m.fitsWhole cfg.mtu then
+             [⟨"delivers-original", "sender-dropped", s!"mtu={cfg.mtu} packet={wire.length}B: nothing was sent"⟩] else [])
+         else match carriesWhy m iframes with
+           | none => []
+           | some why => [⟨"delivers-original", "frames-" ++ why, s!"mtu={cfg.mtu} packet={wire.length}B {iframes.length} frame(s): the frames do not carry the packet ({why})"⟩])
+      let judged := inScope && fails.isEmpty && d.reasm
+      let info : MsgInfo := { id := id, sent := m, frames := iframes, judged := judged, hn := hn, hp := hp, pkt := p }
+      { st := { (setTx d r.1) with msgs := info :: d.msgs.filter (·.id ≠ id) }, expected := some expected,
+        spec := crash ++ fails, cov := cov ++ (if faceB then ["tx-same-packet-on-second-face"] else []), nontrivial := iframes.length > 1 }
+
 
 /-- one arrival at the receiver (an LP frame of a message, or a bare packet): model replay and the
     specification on the implementation's own output -/
@@ -185,7 +252,7 @@ def stepC10 (d : DSt) (op : String) (got : String) : StepResult DSt :=
     | some mtu, some thr, some (seq, nth) =>
       let cfg : TxCfg := { mtu := mtu, fragEnabled := bool01 frag, ifiEnabled := bool01 ifi,
                            congMarking := bool01 cm, threshold := thr }
-      { st := { active := true, cfg := cfg, reasm := bool01 reasm, tx := { nextSeq := seq },
+      { st := { active := true, cfg := cfg, cfgB := cfg, reasm := bool01 reasm, tx := { nextSeq := seq },
                 nThreads := max 1 (min nth 8) },
         expected := some "ok",
         cov := [s!"threads-{max 1 (min nth 8)}", s!"scope-send-{sscope}", s!"scope-recv-{rscope}"] ++ [if bool01 frag then "cfg-frag" else "cfg-nofrag"] ++ (if bool01 ifi then ["cfg-ifi"] else []) ++
@@ -207,59 +274,16 @@ def stepC10 (d : DSt) (op : String) (got : String) : StepResult DSt :=
     match bytesOfHex pkt, (if tok == "-" then some [] else bytesOfHex tok), optNatText mark, optNatText inface,
           hn.toNat?.bind (fun a => (parseThreads hp).map (fun b => (a, b))) with
     | some wire, some tok, some mark, some inface, some (hn, hp) =>
-      -- ---------- model
-      let p : OutPkt := { wire := wire, token := tok, mark := mark, inFace := inface, congested := bool01 cong }
-      let r := sendPacketF d.cfg d.tx p
-      let mframes := r.2.1.map encFrame
-      let expected := s!"n={mframes.length}" ++ String.join (mframes.map fun f => " " ++ hexOfBytes f)
-      let cov := [match r.2.2 with
-                  | .single => "tx-single" | .dropNoFrag => "tx-drop-nofrag"
-                  | .dropTinyMtu => "tx-drop-tiny-mtu" | .fragmented => "tx-fragmented"] ++
-                 (if r.1.nextSeq < d.tx.nextSeq then ["tx-seq-wrap"] else []) ++
-                 (if (congestionStep d.cfg d.tx p).1 ≠ mark then ["tx-own-congestion-mark"] else []) ++
-                 (if tok ≠ [] then ["tx-token"] else []) ++ (if mark.isSome then ["tx-mark"] else []) ++
-                 (if d.cfg.ifiEnabled ∧ inface.isSome then ["tx-inface"] else [])
-      -- ---------- specification on the implementation's frames
-      let toks := got.splitOn " "
-      let iframes : Option (List Bytes) :=
-        match toks with
-        | n :: hs => if n.startsWith "n=" then hs.mapM bytesOfHex else none
-        | [] => none
-      match iframes with
-      | none => { st := { d with tx := r.1, judgeRx := false }, expected := some expected, spec := crash, cov := cov }
-      | some iframes =>
-        let m0 : Sent := { wire := wire, token := tok, mark := mark,
-                           inFace := if d.cfg.ifiEnabled then inface else none }
-        let inScope := m0.admissible && d.cfg.mtu ≥ specMinMtu
-        -- the mark the frames have to carry: the packet's, unless the link signals congestion itself
-        let ownMarkAllowed := d.cfg.congMarking && bool01 cong
-        let firstMark : Option Nat := match decodeAll iframes with
-          | some (f :: _) => f.mark | _ => mark
-        -- nothing was sent: when the link may add its own mark, judge the drop against the smallest
-        -- frame it could have built with a mark of its own (any 1-byte mark has the same size)
-        let mOwn : Sent := { m0 with mark := some 1 }
-        let m : Sent :=
-          if iframes.isEmpty && ownMarkAllowed && mark.isNone && !mOwn.fitsWhole d.cfg.mtu then mOwn
-          else if ownMarkAllowed && (mark.isNone || firstMark.isSome) then { m0 with mark := firstMark } else m0
-        let fails : List SpecFail :=
-          if !inScope then [] else
-          (if framesFit d.cfg.mtu iframes then [] else
-            [⟨"frame-le-mtu", "frame-gt-mtu", s!"mtu={d.cfg.mtu} packet={wire.length}B frame sizes={iframes.map (·.length)}"⟩]) ++
-          (if singleOk m d.cfg.mtu iframes then [] else
-            [⟨"fits-single-frame", "not-single", s!"mtu={d.cfg.mtu} packet={wire.length}B fits one frame of {(encFrame m.whole).length}B but {iframes.length} frames were sent"⟩]) ++
-          (if noFragOk m d.cfg.mtu d.cfg.fragEnabled iframes then [] else
-            [⟨"nofrag-oversize-dropped", "sent-oversize", s!"fragmentation disabled, mtu={d.cfg.mtu}, packet={wire.length}B, yet {iframes.length} frame(s) sent"⟩]) ++
-          (if iframes.isEmpty then
-             (if d.cfg.fragEnabled || m.fitsWhole d.cfg.mtu then
-               [⟨"delivers-original", "sender-dropped", s!"mtu={d.cfg.mtu} packet={wire.length}B: nothing was sent"⟩] else [])
-           else match carriesWhy m iframes with
-             | none => []
-             | some why => [⟨"delivers-original", "frames-" ++ why, s!"mtu={d.cfg.mtu} packet={wire.length}B {iframes.length} frame(s): the frames do not carry the packet ({why})"⟩])
-        let judged := inScope && fails.isEmpty && d.reasm
-        let info : MsgInfo := { id := id, sent := m, frames := iframes, judged := judged, hn := hn, hp := hp }
-        { st := { d with tx := r.1, msgs := info :: d.msgs.filter (·.id ≠ id) }, expected := some expected,
-          spec := crash ++ fails, cov := cov, nontrivial := iframes.length > 1 }
+      txCommon d crash got id { wire := wire, token := tok, mark := mark, inFace := inface, congested := bool01 cong } hn hp false
     | _, _, _, _, _ => { st := d, expected := some "bad-op" }
+  | ["txb", id2, id] =>
+    -- the SAME packet object (defn.Pkt / OutPkt of message <id>) is sent on a second, uncongested face
+    -- as well (multicast Interest, Data with several downstreams): what its peer gets must be the
+    -- original packet with the ORIGINAL mark, whatever the first face decided for itself
+    if !d.active then { st := d, expected := some "skip" } else
+    match d.msgs.find? (·.id = id) with
+    | some info => txCommon d crash got id2 { info.pkt with congested := false } info.hn info.hp true
+    | none => { st := d, expected := some "skip" }
   | ["rx", id, i] =>
     if !d.active then { st := d, expected := some "skip" } else
     match d.msgs.find? (·.id = id), i.toNat? with
